@@ -50,3 +50,20 @@ Fixpoint set_insert (x : list Z) (l : list (list Z)) : list (list Z) :=
   end.
 
 Definition canon_set (l : list (list Z)) : list (list Z) := fold_right set_insert [] l.
+
+(* canonical form of a decoded map: sorted by key, the last binding of a key wins *)
+Fixpoint map_insert (k v : list Z) (l : list (list Z * list Z)) : list (list Z * list Z) :=
+  match l with
+  | [] => [(k, v)]
+  | (k', v') :: r => match bytes_cmp k k' with
+                     | Lt => (k, v) :: l
+                     | Eq => (k, v) :: r
+                     | Gt => (k', v') :: map_insert k v r
+                     end
+  end.
+Definition canon_map (l : list (list Z * list Z)) : list (list Z * list Z) :=
+  fold_left (fun acc kv => map_insert (fst kv) (snd kv) acc) l [].
+
+Definition take_kv (l : list Z) : (list Z * list Z) * list Z :=
+  let '(k, r) := take_bytes l in let '(v, r') := take_bytes r in ((k, v), r').
+Definition put_kv (kv : list Z * list Z) : list Z := put_bytes (fst kv) ++ put_bytes (snd kv).
